@@ -44,7 +44,9 @@ P["C01"] = dict(
 P["C05"] = dict(
     claimed=True,
     technique="static analysis: exact rational identities between the Krueger, rectifying and conformal series tables",
-    decides=["R-PARALLELS-SYMMETRIC: every branch condition of lcc::new on an arithmetic combination of both standard parallels is symmetric in them, and lat_0 defaults to lat_1 on the strength of |lat_1 - lat_2| < eps",
+    decides=["R-K0-LINEAR (stored constants): every constant a projection's constructor derives from k_0 and stores is proportional to k_0 (or a false origin plus such a term)",
+             "R-BRANCH-AGREE: the alternative formulas of `ts` (and of any ancillary function taking a (sin, cos) pair) are equal as rational functions modulo sin^2 + cos^2 = 1",
+             "R-PARALLELS-SYMMETRIC: every branch condition of lcc::new on an arithmetic combination of both standard parallels is symmetric in them, and lat_0 defaults to lat_1 on the strength of |lat_1 - lat_2| < eps",
              "R-KEY-DECLARED: every key (and indexed accessor, e.g. ellps(1)) an operator or its constructor reads is declared by its gamut or stored by the constructor - the user's ellipsoid reaches the projection",
              "R-LATTS-K0 (even): a southern lat_ts is not ignored",
              "R-K0-LINEAR: for merc, lcc, btmerc, butm the forward easting / northing are exactly offset + k_0 * G (G free of k_0, offset exactly x_0 / y_0), and in the inverse every arithmetic expression of the input depends on it only through (input - offset) / k_0 (exact rational-function identities)",
@@ -68,7 +70,8 @@ P["C06"] = dict(
     claimed=True,
     technique="static analysis: exact checks of the ellipsoid table (f64 grammar, uniqueness, golden a and 1/f), "
               "series reversion identities, meridian-arc coefficients = binom(1/2,k)^2",
-    decides=["R-AZIMUTH-ATAN2: the azimuths returned by geodesic_fwd / geodesic_inv are two-argument arctangents",
+    decides=["R-BRANCH-AGREE: numerically motivated alternative branches of the ancillary functions compute the same function",
+             "R-AZIMUTH-ATAN2: the azimuths returned by geodesic_fwd / geodesic_inv are two-argument arctangents",
              "R-COINCIDENCE-BOTH: geodesic_inv's coincidence short-cut looks at both coordinate differences",
              "R-POLAR-HEIGHT: on the polar axis the height is |Z| - b",
              "R-RF-ZERO-CONVENTION: both ellipsoid constructors divide by a table rf only where rf != 0 is known",
